@@ -165,6 +165,8 @@ def classify_field(field):
         return "container"
     if CUR_TU[0] is not None and lib.holder_field(CUR_TU[0], fe):
         return "container"
+    if CUR_TU[0] is not None and fe in (lib.peer_roles(CUR_TU[0]).get("seq_ref"), lib.peer_roles(CUR_TU[0]).get("handler_ref")):
+        return "publish-immutable"     # set once in the handle's constructor
     for name, tab in (("publish-immutable", PUBLISH_IMMUTABLE), ("container", CONTAINER),
                       ("builder-pointer", BUILDER_POINTER), ("atomic", ATOMIC), ("local", LOCAL)):
         if fe in tab:
